@@ -1,6 +1,7 @@
 package rules
 
 import (
+	"sort"
 	"go/token"
 	"strings"
 
@@ -304,131 +305,260 @@ func c04Handlers(e *Env, s *Sched) {
 	r := e.R
 	r.Rule("C04.after-wait", "MPT", "handler selection after wg.Wait(), outside the loop", 2)
 	loopFn := s.Loop
+	loopFns := sortedFns(s.LoopFns)
 	var wait ssa.Instruction
-	for _, ci := range ir.CallsIn(loopFn, func(c *ssa.CallCommon) bool { return ir.IsCallTo(c, "(*sync.WaitGroup).Wait") }) {
-		wait = ci
+	for _, lf := range loopFns {
+		for _, ci := range ir.CallsIn(lf, func(c *ssa.CallCommon) bool { return ir.IsCallTo(c, "(*sync.WaitGroup).Wait") }) {
+			wait = ci
+		}
 	}
 	if wait == nil {
 		r.Bad("loop: wg.Wait()", e.Pos(loopFn.Pos()), "the scheduling function never waits for its workers")
 		return
 	}
-	loops := ir.Loops(loopFn)
-	r.Check(ir.InnermostLoop(loops, wait.Block()) == nil && !ir.Precedes(wait, s.Launch), "loop: wg.Wait() after the scheduling loop", e.InstrPos(wait),
+	// not inside a loop (in its own function or, lifted through single-call-site helpers, in a caller), and after the launch
+	inLoop := false
+	for cur := wait; cur != nil; {
+		if ir.InnermostLoop(ir.Loops(cur.Parent()), cur.Block()) != nil {
+			inLoop = true
+		}
+		us := ir.UniqueSite(cur.Parent())
+		if us == nil || !s.inLoop(us.Parent()) {
+			break
+		}
+		cur = us
+	}
+	r.Check(!inLoop && !s.after(wait, s.Launch), "loop: wg.Wait() after the scheduling loop", e.InstrPos(wait),
 		"wg.Wait() is inside the scheduling loop or before the launch")
 	statusFn := e.FnQuiet(schedRel, "(*Scheduler).Status")
 	var statusCalls []*ssa.Call
-	for _, ci := range ir.CallsIn(loopFn, func(c *ssa.CallCommon) bool { return c.StaticCallee() == statusFn && statusFn != nil }) {
-		if c, ok := ci.(*ssa.Call); ok {
-			statusCalls = append(statusCalls, c)
+	for _, lf := range loopFns {
+		for _, ci := range ir.CallsIn(lf, func(c *ssa.CallCommon) bool { return c.StaticCallee() == statusFn && statusFn != nil }) {
+			if c, ok := ci.(*ssa.Call); ok {
+				statusCalls = append(statusCalls, c)
+			}
 		}
 	}
 	for _, sc := range statusCalls {
-		r.Check(ir.Precedes(wait, sc), "loop: Status(g) that selects handlers after wg.Wait()", e.InstrPos(sc),
+		r.Check(s.after(wait, sc), "loop: Status(g) that selects handlers after wg.Wait()", e.InstrPos(sc),
 			"the outcome used to select handlers is computed before all workers have finished")
 	}
 
 	r.Rule("C04.handler-table", "DCS+VF", "handler ↔ outcome table; onExit last and unconditional; one run per element", 5)
 	_, hnames := e.EnumOfString("internal/dag", "HandlerType")
 	want := map[string]string{"HandlerOnSuccess": "StatusSuccess", "HandlerOnFailure": "StatusError", "HandlerOnCancel": "StatusCancel"}
-	var exitAppend *ssa.Call
-	nExit := 0
-	seenH := map[string]bool{}
 	isStatusCall := func(v ssa.Value) bool {
-		c, ok := ir.Resolve(v).(*ssa.Call)
+		c, ok := ir.Deep(v).(*ssa.Call)
 		return ok && c.Call.StaticCallee() == statusFn && statusFn != nil
 	}
-	for _, b := range loopFn.Blocks {
-		for _, in := range b.Instrs {
-			c, ok := in.(*ssa.Call)
-			if !ok {
+	// the handler loop, by role: a loop of the scheduling function (or one of its
+	// helpers) whose body runs sc.handlers[element] through a function that reaches Execute
+	var hl *ir.Loop
+	var hlLoops []*ir.Loop
+	var runnerCalls []*ssa.Call
+	for _, lf := range loopFns {
+		ls := ir.Loops(lf)
+		for _, l := range ls {
+			if l.Ranged == nil || l.Elem == nil {
 				continue
 			}
-			for _, el := range appendedElems(c) {
-				str, isS := ir.ConstString(el)
-				if !isS || !strings.HasSuffix(ir.NamedType(el.Type()), "internal/dag.HandlerType") {
-					continue
-				}
-				hn := hnames[str]
-				seenH[hn] = true
-				lits := e.DCS(c)
-				pos := e.InstrPos(c)
-				if hn == "HandlerOnExit" {
-					nExit++
-					exitAppend = c
-					hasStatus := false
-					for _, l := range lits {
-						if l.Kind == "cmp" && isStatusCall(l.X) {
-							hasStatus = true
-						}
+			var calls []*ssa.Call
+			for b := range l.Blocks {
+				for _, in := range b.Instrs {
+					c, ok := in.(*ssa.Call)
+					if !ok || c.Call.StaticCallee() == nil || !e.ReachesRepo(c.Call.StaticCallee(), func(x *ssa.Function) bool { return x == s.Execute }) {
+						continue
 					}
-					r.Check(!hasStatus && ir.Precedes(wait, c), "loop: onExit appended unconditionally after Wait", pos,
-						"the exit handler is selected only under some outcomes", e.FactsStr("dominating conditions: ", lits))
-					continue
+					calls = append(calls, c)
 				}
-				st := want[hn]
-				set := ir.Restrict(lits, isStatusCall, s.SS)
-				ok := len(set) == 1 && set[ConstVal(s.SS, st)]
-				r.Check(ok, "loop: "+hn+" appended only under "+st, pos,
-					"handler "+hn+" is selected under outcome(s) {"+strings.Join(set.Names(s.SS), ",")+"}", e.FactsStr("dominating conditions: ", lits))
 			}
-		}
-	}
-	for hn := range want {
-		if !seenH[hn] {
-			r.Bad("loop: "+hn+" appended only under "+want[hn], e.InstrPos(wait), "handler "+hn+" is never selected")
-		}
-	}
-	if nExit > 1 {
-		r.Bad("loop: onExit appended exactly once", e.InstrPos(exitAppend), sprintf("the exit handler is appended %d times (it would run more than once, or not last)", nExit))
-	}
-	if exitAppend == nil {
-		r.Bad("loop: onExit appended unconditionally after Wait", e.InstrPos(wait), "the exit handler is never selected")
-		return
-	}
-	// the handler loop ranges over exactly the slice produced by the onExit append
-	var hl *ir.Loop
-	for _, l := range loops {
-		if l.Ranged != nil && ir.Resolve(l.Ranged) == ssa.Value(exitAppend) {
-			hl = l
+			if len(calls) > 0 && strings.HasSuffix(ir.NamedType(l.Elem.Type()), "internal/dag.HandlerType") {
+				hl, hlLoops, runnerCalls = l, ls, calls
+			}
 		}
 	}
 	if hl == nil {
-		r.Bad("loop: handlers run by ranging over the slice that ends with onExit", e.InstrPos(exitAppend),
-			"the handler loop does not range over the slice whose last element is onExit (onExit would not be last, or would be skipped)")
+		r.Bad("loop: handlers run by ranging over the slice that ends with onExit", e.InstrPos(wait),
+			"no loop over handler types that runs the selected handlers was found after the workers were awaited")
 		return
 	}
-	r.OK("loop: handlers run by ranging over the slice that ends with onExit", e.InstrPos(exitAppend), "onExit is the last element of the ranged slice")
-	// one runner call per element, on sc.handlers[h]
-	runner := e.FnQuiet(schedRel, "(*Scheduler).runHandlerNode")
-	n := 0
-	for b := range hl.Blocks {
-		for _, in := range b.Instrs {
-			c, ok := in.(*ssa.Call)
-			if !ok || c.Call.StaticCallee() == nil || !e.ReachesRepo(c.Call.StaticCallee(), func(x *ssa.Function) bool { return x == s.Execute }) {
-				continue
+	// every way the ranged list can be produced: its elements in order, and the conditions of that way
+	type alt struct {
+		lits []ir.NLit
+		seq  []string
+		pos  string
+		ok   bool
+	}
+	var alts func(v ssa.Value, lits []ir.NLit, depth int) []alt
+	constsOf := func(vals []ssa.Value) ([]string, bool) {
+		var out []string
+		for _, el := range vals {
+			str, isS := ir.ConstString(el)
+			if !isS || !strings.HasSuffix(ir.NamedType(el.Type()), "internal/dag.HandlerType") {
+				return nil, false
 			}
-			n++
-			okArg := false
-			for _, a := range c.Call.Args {
-				if lk, isL := ir.Resolve(a).(*ssa.Lookup); isL {
-					if p, okp := e.C.PathOf(lk.X); okp && p.Suffix("handlers") && ir.Resolve(lk.Index) == ir.Resolve(hl.Elem) {
-						okArg = true
+			out = append(out, hnames[str])
+		}
+		return out, true
+	}
+	alts = func(v ssa.Value, lits []ir.NLit, depth int) []alt {
+		v = ir.Resolve(v)
+		if depth > 8 {
+			return []alt{{lits: lits, pos: "-"}}
+		}
+		if ir.IsNilConst(v) {
+			return []alt{{lits: lits, ok: true, pos: "-"}}
+		}
+		switch x := v.(type) {
+		case *ssa.Phi:
+			var out []alt
+			for k, ed := range x.Edges {
+				el := append(append([]ir.NLit{}, lits...), e.DCSPhiEdge(x.Block(), k)...)
+				out = append(out, alts(ed, el, depth+1)...)
+			}
+			return out
+		case *ssa.Slice:
+			// a slice literal: []T{a, b}
+			if al, isA := x.X.(*ssa.Alloc); isA {
+				type st struct {
+					idx int64
+					v   ssa.Value
+				}
+				var stores []st
+				for _, ref := range *al.Referrers() {
+					if ia, isIA := ref.(*ssa.IndexAddr); isIA {
+						k, _ := ir.ConstInt(ia.Index)
+						for _, r2 := range *ia.Referrers() {
+							if sto, isS := r2.(*ssa.Store); isS && sto.Addr == ia {
+								stores = append(stores, st{k, sto.Val})
+							}
+						}
 					}
 				}
+				sort.Slice(stores, func(i, j int) bool { return stores[i].idx < stores[j].idx })
+				var vals []ssa.Value
+				for _, q := range stores {
+					vals = append(vals, q.v)
+				}
+				seq, ok := constsOf(vals)
+				return []alt{{lits: append(append([]ir.NLit{}, lits...), e.DCS(x)...), seq: seq, ok: ok, pos: e.InstrPos(x)}}
 			}
-			inner := ir.InnermostLoop(loops, c.Block())
-			r.Check(okArg && inner == hl, "handler loop: run sc.handlers[h] once for the current element", e.InstrPos(c),
-				"the handler runner is not applied to the handler of the current slice element exactly once per element")
+		case *ssa.Call:
+			if els := appendedElems(x); els != nil {
+				seq, ok := constsOf(els)
+				here := e.DCS(x)
+				var out []alt
+				for _, a := range alts(x.Call.Args[0], append(append([]ir.NLit{}, lits...), here...), depth+1) {
+					out = append(out, alt{lits: a.lits, seq: append(append([]string{}, a.seq...), seq...), ok: a.ok && ok, pos: e.InstrPos(x)})
+				}
+				return out
+			}
+			if h := x.Call.StaticCallee(); h != nil && s.inLoop(h) {
+				var out []alt
+				for _, b := range h.Blocks {
+					for _, in := range b.Instrs {
+						if rt, isR := in.(*ssa.Return); isR && len(rt.Results) == 1 && e.Facts(h).Reachable(b) {
+							for _, rv := range RetVals(rt, 0) {
+								out = append(out, alts(rv, append(append([]ir.NLit{}, lits...), e.DCS(rt)...), depth+1)...)
+							}
+						}
+					}
+				}
+				return out
+			}
+		}
+		return []alt{{lits: lits, pos: e.InstrPos(hl.Header.Instrs[0])}}
+	}
+	all := alts(hl.Ranged, nil, 0)
+	seenH := map[string]bool{}
+	okExit, okShape := true, true
+	var exitPos string
+	bad := map[string][]string{}
+	for _, a := range all {
+		if !a.ok {
+			okShape = false
+			continue
+		}
+		if len(a.seq) == 0 || a.seq[len(a.seq)-1] != "HandlerOnExit" {
+			okExit = false
+		}
+		exitPos = a.pos
+		set := ir.Restrict(a.lits, isStatusCall, s.SS)
+		if len(set) == 0 {
+			continue // infeasible combination of branches
+		}
+		has := map[string]bool{}
+		for i, hn := range a.seq {
+			has[hn] = true
+			seenH[hn] = true
+			if hn == "HandlerOnExit" {
+				if i != len(a.seq)-1 {
+					okExit = false
+				}
+				continue
+			}
+			st, known := want[hn]
+			if !known || !(len(set) == 1 && set[ConstVal(s.SS, st)]) || i != 0 {
+				bad[hn] = append(bad[hn], "selected under outcome(s) {"+strings.Join(set.Names(s.SS), ",")+"}")
+			}
+		}
+		// and the other way round: an outcome's handler is in every list produced under that outcome
+		for hn, st := range want {
+			if set[ConstVal(s.SS, st)] && !has[hn] {
+				bad[hn] = append(bad[hn], "not selected on a way taken under "+st)
+			}
 		}
 	}
-	_ = runner
-	if n != 1 {
-		r.Bad("handler loop: exactly one runner call", e.InstrPos(exitAppend), sprintf("found %d calls that execute a handler inside the handler loop", n))
+	if !okShape {
+		r.Unknown("loop: the list of handlers to run", e.InstrPos(hl.Header.Instrs[0]), "the list the handler loop ranges over is not built from handler-type constants (appends, slice literals, selection helpers)")
+		return
+	}
+	var hns []string
+	for hn := range want {
+		hns = append(hns, hn)
+	}
+	sort.Strings(hns)
+	for _, hn := range hns {
+		if !seenH[hn] {
+			r.Bad("loop: "+hn+" appended only under "+want[hn], e.InstrPos(wait), "handler "+hn+" is never selected")
+			continue
+		}
+		r.Check(len(bad[hn]) == 0, "loop: "+hn+" appended only under "+want[hn], e.InstrPos(hl.Header.Instrs[0]),
+			"handler "+hn+" does not run exactly for outcome "+want[hn]+": "+strings.Join(dedupe(bad[hn]), "; "))
+	}
+	r.Check(okExit && s.after(wait, hl.Header.Instrs[0]), "loop: onExit appended unconditionally after Wait", exitPos,
+		"the exit handler is not the last element of every list of handlers that is run (it would be skipped for some outcome, or not run last)")
+	r.OK("loop: handlers run by ranging over the slice that ends with onExit", e.InstrPos(hl.Header.Instrs[0]), "onExit is the last element of the ranged slice")
+	// one runner call per element, on sc.handlers[h]
+	for _, c := range runnerCalls {
+		okArg := false
+		for _, a := range c.Call.Args {
+			if lk, isL := ir.Resolve(a).(*ssa.Lookup); isL {
+				if p, okp := e.C.PathOf(lk.X); okp && p.Suffix("handlers") && ir.Resolve(lk.Index) == ir.Resolve(hl.Elem) {
+					okArg = true
+				}
+			}
+		}
+		inner := ir.InnermostLoop(hlLoops, c.Block())
+		r.Check(okArg && inner == hl, "handler loop: run sc.handlers[h] once for the current element", e.InstrPos(c),
+			"the handler runner is not applied to the handler of the current slice element exactly once per element")
+	}
+	if len(runnerCalls) != 1 {
+		r.Bad("handler loop: exactly one runner call", e.InstrPos(hl.Header.Instrs[0]), sprintf("found %d calls that execute a handler inside the handler loop", len(runnerCalls)))
 	}
 
 	r.Rule("C04.handler-no-lasterror", "VF", "no possibly non-nil lastError write after handler selection", 0)
-	for _, ev := range e.C.FieldStores(loopFn, "lastError") {
-		if !ir.Precedes(wait, ev.Site) {
+	var lastErrEvs []ir.StoreEvent
+	for _, lf := range loopFns {
+		for _, ev := range e.C.FieldStores(lf, "lastError") {
+			if len(ev.Via) > 0 && s.inLoop(ev.Via[0]) {
+				continue
+			}
+			lastErrEvs = append(lastErrEvs, ev)
+		}
+	}
+	for _, ev := range lastErrEvs {
+		if !s.after(wait, ev.Site) {
 			continue
 		}
 		fl := &ir.Flow{C: e.C, Source: func(v ssa.Value) bool {
